@@ -112,6 +112,13 @@ def family_built(ctx, names):
     d = substrate.CACHE / 'fam'
     d.mkdir(parents=True, exist_ok=True)
     p = d / f'{key}.pickle'
+    # tell this run's worker processes which cache file is current
+    (d / f'current-{os.getpid()}.txt').write_text(str(p))
+    for q in d.glob('current-*.txt'):
+        try:
+            os.kill(int(q.stem.split('-')[1]), 0)
+        except (OSError, ValueError):
+            q.unlink(missing_ok=True)
     if p.exists():
         setup()
         with open(p, 'rb') as f:
@@ -130,8 +137,17 @@ def family_built(ctx, names):
     return out
 
 
-def family_load(path):
+def family_current():
+    """The family cache of the running check (called in worker processes
+    and in the main process)."""
+    import os
     import pickle
+    import substrate
     setup()
-    with open(path, 'rb') as f:
-        return pickle.load(f)
+    d = substrate.CACHE / 'fam'
+    for pid in (os.getpid(), os.getppid()):
+        q = d / f'current-{pid}.txt'
+        if q.exists():
+            with open(q.read_text().strip(), 'rb') as f:
+                return pickle.load(f)
+    return {}
